@@ -36,7 +36,7 @@ def rh_num_buckets(radix, bits):
 
 
 def rh_jobs(js):
-    quick = {(8, 'u64'), (8, 'i32'), (64, 'u16'), (2, 'i8'), (16, 'u8'), (4, 'i64')}
+    quick = {(r, k) for r in (2, 4, 8, 16, 32, 64) for k in KEYS}       # 344 loop-free jobs, half a minute on 16 cores
     for radix in (2, 4, 8, 16, 32, 64):
         for kn, (kt, bits, sg) in KEYS.items():
             t = 'quick' if (radix, kn) in quick else 'thorough'
